@@ -154,6 +154,9 @@ def main():
         rc, out = sh(["git", "-C", REPO, "status", "--porcelain"])
         if out.strip():
             print("WARNING: /repo not clean after undo:\n" + out)
+        # the evidence files now describe runs against the changed tree: put the committed ones (unchanged tree) back
+        for p in props:
+            sh(["git", "-C", ROOT, "checkout", "--", "evidence/%s.json" % p])
     json.dump(result, open(os.path.join(d, "result.json"), "w"), indent=1)
 
 
